@@ -8,6 +8,13 @@ VERIF = os.path.dirname(os.path.dirname(os.path.abspath(__file__)))
 
 # per-property manifest texts: (technique, level text, level note)
 TEXT = {
+    "C01": ("Hypothesis PBT over generated operation histories (selector-resolved op lists = stateful testing), "
+            "well-formedness invariant after every step",
+            "Generated histories of up to 25 (60 thorough) public mutators on owned tensors (every construction route) and "
+            "unowned fibers; structural well-formedness checked on the raw coords/payloads lists after every single "
+            "step; order rejections must leave the snapshot unchanged.",
+            "Trusts the op interpreter's knowledge of which calls are documented rejections; depth<=3, shapes<=6; unowned "
+            "trees depth<=2 (see DESIGN section 5)."),
     "C04": ("Hypothesis PBT + exhaustive small domain: set-algebra oracle over presented coordinates, payload identity",
             "Generated k<=4 operand sets (leaf / 2-level, owned / unowned, C / U format, int and tuple coordinates of equal "
             "and mixed arity) checked against coordinate-set algebra, payload identity (is), fresh defaults, masks, "
